@@ -52,7 +52,7 @@ type MapInto struct {
 // Call the function with the arguments provided.
 func (f *MapInto) Call(s *slip.Scope, args slip.List, depth int) (result slip.Object) {
 	slip.CheckArgCount(s, depth, f, args, 2, -1)
-	rlist, ok := args[0].(slip.List)
+	rlist, ok := listArg(args[0])
 	if !ok {
 		slip.TypePanic(s, depth, "result-sequence", args[0], "list")
 	}
@@ -63,7 +63,7 @@ func (f *MapInto) Call(s *slip.Scope, args slip.List, depth int) (result slip.Ob
 	lists := make([]slip.List, len(args))
 	for i, arg := range args {
 		var list slip.List
-		if list, ok = arg.(slip.List); !ok {
+		if list, ok = listArg(arg); !ok {
 			slip.TypePanic(s, depth, "lists", arg, "list")
 		}
 		lists[i] = list
